@@ -69,7 +69,7 @@ fn consume_image(bytes: &Vec<u8>,hint: Option<&str>) -> String {
     }
 }
 
-fn with_watchdog<F: FnOnce() -> String + Send + 'static>(f: F) -> String {
+pub fn with_watchdog<F: FnOnce() -> String + Send + 'static>(f: F) -> String {
     let (tx,rx) = mpsc::channel();
     std::thread::spawn(move || {
         let r = catch_unwind(AssertUnwindSafe(f));
